@@ -171,6 +171,13 @@ func c12Eval(c *fw.Ctx, k c12Case) (sig, desc string, nontrivial bool) {
 		file, glob, item, srcpat = "ml/web/a.wsp", "ml/*/*.wsp", "mi*/w*", "*.wsp"
 	case "odd-pattern":
 		file, glob, item, srcpat = "g/x+y&z=1.wsp", "g/x+y&z*.wsp", "it/p+q&r", "a+b&*.wsp"
+	case "many":
+		// 1100 matches with paths of about 1000 bytes: the listing the server sends for the pattern is larger than 1 MiB
+		file, glob, item, srcpat = "a.wsp", "many/*/*/*/*.wsp", "manyit/*/*/*/*", "*.wsp"
+		for _, rel := range c12ManyPaths() {
+			(&BFile{L: l, Rings: r1}).Write(filepath.Join(root, "many", rel+".wsp"))
+			(&BFile{L: l, Rings: r2}).Write(filepath.Join(root, "manyit", rel, "a.wsp"))
+		}
 	case "big":
 		file, glob, item, srcpat = "big/a.wsp", "big/*.wsp", "bigit/*", "*.wsp"
 		bl := wsp.Layout{Archs: wsp.ParseLayout("1s:150000s,60s:600000s"), Method: 2}
@@ -196,6 +203,11 @@ func c12Eval(c *fw.Ctx, k c12Case) (sig, desc string, nontrivial bool) {
 		(&BFile{L: l, Rings: r2}).Write(filepath.Join(ddir, "a.wsp"))
 		(&BFile{L: l, Rings: r2}).Write(filepath.Join(ddir, "g", "a.wsp"))
 		(&BFile{L: l, Rings: r2}).Write(filepath.Join(ddir, "g", "b.wsp"))
+		if k.Target == "many" {
+			for _, rel := range c12ManyPaths() {
+				(&BFile{L: l, Rings: r2}).Write(filepath.Join(ddir, "many", rel+".wsp"))
+			}
+		}
 		if k.Target == "big" {
 			os.RemoveAll(ddir)
 			(&BFile{L: l, Rings: EmptyRings(l)}).Write(filepath.Join(ddir, "big", "a.wsp"))
@@ -260,11 +272,21 @@ func c12Eval(c *fw.Ctx, k c12Case) (sig, desc string, nontrivial bool) {
 	return "", "", nontrivial
 }
 
+func c12ManyPaths() []string {
+	pad := func(p string) string { return p + strings.Repeat("n", 240-len(p)) }
+	var out []string
+	for i := 0; i < 1100; i++ {
+		out = append(out, filepath.Join(pad("d1-"), pad("d2-"), pad(fmt.Sprintf("d3-%d-", i%3)), pad(fmt.Sprintf("f%04d-", i))))
+	}
+	return out
+}
+
 func runC12(c *fw.Ctx) {
 	ld := LayoutByTag("L4")
 	clocks := Clocks(ld.Archs, false, []string{"mid"})
 	rmax, r0 := ld.Archs[1].Ret(), ld.Archs[0].Ret()
 	codes := allCodes(5, 3)
+	c.R.Bounds["many"] = "1100 matched files / items whose paths are about 1000 bytes each (listing on the wire > 1 MiB), diff with glob and sum"
 	c.R.Bounds["big"] = "one 2.4 MB file (1s:150000s,60s:600000s, every 7th slot filled) read over its whole retention by view, view-raw, sum, diff, copy"
 	c.R.Bounds["worlds"] = "L4: every content of the main file over {absent, 0.1, -2} (243) x a rotating second file; tree with a plain file, a glob directory of two files and two items"
 	c.R.Bounds["options"] = "commands view, view-raw, sum, diff, diff with glob, copy, copy with glob, sum-diff x target existing/missing/non-matching x archive all/0/1/2(out of range) x 7 windows (incl. zero-length ones) x 2 clocks"
@@ -279,6 +301,21 @@ func runC12(c *fw.Ctx) {
 				return
 			}
 			code2 := codes[(si*7+11*ci)%len(codes)]
+			if si%122 == 0 {
+				// a pattern whose listing on the wire is larger than a megabyte
+				for _, cmd := range []string{"diff-glob", "sum"} {
+					k := c12Case{Code: code, Code2: code2, Now: now, Cmd: cmd, Target: "many", Archive: -1}
+					sig, desc, nt := c12Eval(c, k)
+					c.Count("evaluations", 1)
+					if nt {
+						c.Count("distinct_nontrivial", 1)
+					}
+					c.Outcome(cmd + "/many")
+					if sig != "" {
+						c.Violate(sig, clip(desc, 1500), 60, k, "")
+					}
+				}
+			}
 			if si%61 == 0 {
 				// a served file whose whole-retention answer is larger than a megabyte
 				for _, cmd := range []string{"view", "sum", "diff", "copy", "view-raw"} {
